@@ -334,7 +334,7 @@ def run_case(spec, workdir):
     log = os.path.join(workdir, "log")
     evlog.open_log(log)
     fn, kind = _stage_fn(spec, workdir)
-    outcome, info = models.run_stage(fn, log, kind, watchdog=120)
+    outcome, info = models.run_stage(fn, log, kind, watchdog=120, hostile=dict(seed=spec["seed"], p=0.03, files=("pyramid.py", "par_util.py", "merge.py", "multi_tan.py", "multi_wcs.py"), lo=0.001, hi=0.06, budget=1.0) if spec["seed"] % 4 == 0 else None)
     recs = evlog.read(log)
     evlog.close_log()
     injected = any(r["k"] == "fault_injected" for r in recs)
@@ -343,6 +343,7 @@ def run_case(spec, workdir):
     counters["faults_k%d" % par] += 1
     counters["outcome_" + outcome] += 1
     counters["exc_" + spec["exc"]] += 1
+    counters["statement_delays"] = sum(1 for r in recs if r["k"] == "sched")
     if outcome == "watchdog":
         return dict(status="inconclusive", detail="watchdog: neither an outcome nor a stuck state was recognised")
     if not injected:
